@@ -5,8 +5,8 @@
    isLineEnd (length guard + backslash parity); the cut at max_event_size (cut_off_event_by_limit)
    keeps  fragment[:escapedCutKeep(fragment, len(fragment)-offset)]  of the fragment body, i.e. it
    never cuts inside an escape sequence (\x, \uXXXX) and never keeps more than the byte limit.
-   Meta data lookup, label fields and the Fatalf checks on the k8s_* fields are not modelled (the
-   harness always supplies them).  Index / slice expressions are in GoSem.res.  No proofs here.   *)
+   Meta data lookup and label fields are not modelled; the Fatalf checks on the k8s_* fields are the
+   same exit as the one for a missing log field (see kin_of_sx).  Index / slice expressions are in GoSem.res.  No proofs here.   *)
 From Verif Require Import Base.Sx Base.GoSem Model.Join.
 
 Definition QUOTE : byte := 34%N.
@@ -253,6 +253,24 @@ Fixpoint k_spec (c : kcfg) (hist : list (bytes * Z)) (xs : list kin) : list kste
         (ACollapse, inc, None, false) :: k_spec c (hist ++ [(f, sz)]) r
   end.
 
+(* ... and with time-outs: the time-out drops what is buffered (the flush clause is refuted, see k8s_timeout_flush_refuted)
+   and the action is as good as new - it is no longer busy, the processor may hand it any other stream next, so NOTHING
+   of the line that timed out may survive.  (The code keeps skipNextEvent: Proofs k8s_timeout_fresh_refuted / _partial) *)
+Fixpoint k_spec_t (c : kcfg) (hist : list (bytes * Z)) (xs : list kin) : list kstep :=
+  match xs with
+  | [] => []
+  | KTimeout :: r => (ADiscard, 0, None, false) :: k_spec_t c [] r
+  | KChunk f sz :: r =>
+      let fs := map fst hist in
+      let unfit := first_unfit (kmax c) 1 fs in
+      let term := ends_nl f || (opt_is_none unfit && (sum_sizes hist + sz + lookahead >? ksplit c)) in
+      if term then final_step c fs f :: k_spec_t c [] r
+      else
+        let inc := if opt_is_none unfit && negb (opt_is_none (first_unfit (kmax c) 1 (fs ++ [f])))
+                   then 1 else 0 in
+        (ACollapse, inc, None, false) :: k_spec_t c (hist ++ [(f, sz)]) r
+  end.
+
 Definition no_timeout (xs : list kin) : bool :=
   forallb (fun x => match x with KTimeout => false | _ => true end) xs.
 Definition frag_ok (x : kin) : bool :=
@@ -272,20 +290,28 @@ Definition k_out_bytes (os : list kstep) : bytes :=
 (* ---- exchange glue ---------------------------------------------------------------------------
    case = ((max split cut field only) (chunk ...)), chunk = 0 | (style #raw size #escaped)
    obs  = ((step ...) (late ...) panic), step = (result incs #log cutflag)                       *)
-Definition kin_of_sx (s : sx) : option kin :=
+(* style bits 4-6 (style / 16 mod 8) <> 0: the event lacks one of k8s_namespace / k8s_pod / k8s_container_id /
+   k8s_container.  Do ends the process with Fatalf at the same place where it does for an event without a log field
+   (after the only_node return, before anything is buffered): such a chunk is the chunk with no fragment; with
+   only_node the fields are never looked at *)
+Definition kin_of_sx (only : bool) (s : sx) : option kin :=
   match s with
   | SZ 0 => Some KTimeout
-  | SL [SZ _; SB _; SZ size; SB esc] => Some (KChunk esc size)
+  | SL [SZ style; SB _; SZ size; SB esc] =>
+      Some (KChunk (if negb only && negb ((style / 16) mod 8 =? 0) then [] else esc) size)
   | _ => None
   end.
 
 Definition kcase_of_sx (s : sx) : option (kcfg * list kin) :=
   match s with
   | SL [SL [SZ max; SZ split; cut; field; only]; xs] =>
-      match as_bool cut, as_bool field, as_bool only, as_list kin_of_sx xs with
-      | Some a, Some b, Some o, Some l =>
-          Some ({| kmax := max; ksplit := split; kcut := a; kfield := b; konly := o |}, l)
-      | _, _, _, _ => None
+      match as_bool cut, as_bool field, as_bool only with
+      | Some a, Some b, Some o =>
+          match as_list (kin_of_sx o) xs with
+          | Some l => Some ({| kmax := max; ksplit := split; kcut := a; kfield := b; konly := o |}, l)
+          | None => None
+          end
+      | _, _, _ => None
       end
   | _ => None
   end.
@@ -362,6 +388,29 @@ Definition c15_k8s_run (case obs : sx) : verdict :=
   | None => BadCase
   | Some m =>
       if c15_k8s_pred case obs && c15_k8s_wf_pred case obs
+      then (if sx_eqb m obs then Agree else Differ m) else Violates m
+  end.
+
+(* which = 9: sequences WITH time-outs against k_spec_t (the action starts afresh after a time-out) *)
+Definition c15_k8s_fresh_pred (case obs : sx) : bool :=
+  match kcase_of_sx case with
+  | Some (c, xs) =>
+      if forallb frag_ok xs && negb (konly c) then
+        match obs with
+        | SL [SL steps; SL late; SZ 0] =>
+            sx_eqb (SL steps) (SL (map sx_of_kstep (k_spec_t c [] xs))) &&
+            sx_eqb (SL late) (SL (k_late (k_spec_t c [] xs)))
+        | _ => false
+        end
+      else true
+  | None => false
+  end.
+
+Definition c15_k8s_fresh_run (case obs : sx) : verdict :=
+  match c15_k8s_model case with
+  | None => BadCase
+  | Some m =>
+      if c15_k8s_fresh_pred case obs && c15_k8s_pred case obs && c15_k8s_wf_pred case obs
       then (if sx_eqb m obs then Agree else Differ m) else Violates m
   end.
 
